@@ -22,7 +22,11 @@ static void h_run_case(hcase_t* c) {
   cur = c;
   int k = (int)c->params[0]; long start = c->params[1]; int dmax = (int)c->params[2];
   rb = lockfree_ring_buffer_create(k);
-  rb->high = start; rb->low = start;
+  /* optional 4th parameter: the real counters start at start + bias (bias a multiple of the ring size, so that the
+   * slot indices are those of the model run from `start`); reported counter values are debiased */
+  long bias = c->nparams >= 4 ? c->params[3] : 0;
+  rb->high = start + bias; rb->low = start + bias;
+  if (bias) { rt_bias(0, bias); rt_bias(1, bias); }
   rt_reg((void*)&rb->high, 8, 0, 8);
   rt_reg((void*)&rb->low, 8, 1, 8);
   rt_reg(rb->buffer, sizeof(void*) * rb->size, 10, 8);
